@@ -1096,7 +1096,7 @@ static void gen_stdin_text(char *in, int cap, int nodeset_input, int for_sl, int
 static void gen_calc_stdin(int sl) {
   static char line[1 << 16], in[1 << 14]; struct args a = {0}; int ni; char bucket[64]; unsigned nl;
   do { a_free(&a); gen_stdin_opts(&a, !sl, &ni, bucket, sizeof bucket); } while (slow_args(&a));
-  if (rng_chance(has_attrs() ? 14 : 3) && a.n < MAXARG - 4) {      /* --cpukind <arg> in front (a topology option) */
+  if (!sl && rng_chance(has_attrs() ? 14 : 3) && a.n < MAXARG - 4) {      /* --cpukind <arg> in front (a topology option; the SL runs put -q first) */
     char kb[256]; gen_cpukind_arg(kb, sizeof kb);
     memmove(a.v + 2, a.v, (size_t) a.n * sizeof *a.v); a.v[0] = strdup("--cpukind"); a.v[1] = strdup(kb); a.n += 2; stat_hit("stdin:cpukind-option");
   }
